@@ -657,9 +657,26 @@ func (r *Raft) restoreSnapshot() error {
 	}
 
 	// Try to load in order of newest to oldest
+	var skippedIndex uint64
 	for _, snapshot := range snapshots {
 		if success := r.tryRestoreSingleSnapshot(snapshot); !success {
+			skippedIndex = max(skippedIndex, snapshot.Index)
 			continue
+		}
+
+		// Falling back to an older snapshot is only possible if the log still
+		// holds everything after it. The log is compacted against the newest
+		// snapshot, so the entries between the two may be gone; starting
+		// anyway would silently drop entries this server has acknowledged.
+		if skippedIndex > snapshot.Index {
+			firstIdx, err := r.logs.FirstIndex()
+			if err != nil {
+				return err
+			}
+			if firstIdx == 0 || firstIdx > snapshot.Index+1 {
+				return fmt.Errorf("failed to load the newest snapshot, and the log (first index %d) does not reach back to the older snapshot at %d",
+					firstIdx, snapshot.Index)
+			}
 		}
 
 		// Update the lastApplied so we don't replay old logs
